@@ -226,3 +226,76 @@ Proof.
       unfold l4', z, X, wr32. rewrite !bat_wr16_out by wlen. rewrite bat_wr8_out by wlen.
       rewrite !bat_wr16_out by wlen. reflexivity.
 Qed.
+
+(* ---------------------------------------------------------------------------------------------- *)
+(** * one reference UDP segment *)
+
+Lemma ref_udp_seg_props isV4 iph l4h i chunk :
+  (min_l3 isV4 <= length iph)%nat -> (isV4 = true -> (20 <= ihl_of iph <= length iph)%nat) ->
+  length l4h = 8%nat -> N.of_nat (length iph + 8 + length chunk) <= 65535 ->
+  let s := ref_udp_seg isV4 iph l4h i chunk in
+  let cs := length iph in
+  let hl := (cs + 8)%nat in
+  length s = (hl + length chunk)%nat /\ skipn hl s = chunk /\ l3_ok isV4 iph s i /\
+  valid_csum (pseudo_hdr isV4 s IPPROTO_UDP (N.of_nat (length s - cs)) ++ skipn cs s) /\
+  rd16 s (cs + 4) = N.of_nat (length s - cs) /\
+  rd16 s (cs + 6) <> 0 /\
+  (let c := csum16 (pseudo_hdr isV4 s IPPROTO_UDP (N.of_nat (length s - cs)) ++ wr16 (skipn cs s) 6 0) 0 in
+   rd16 s (cs + 6) = if c =? 0 then 65535 else c) /\
+  (forall k, (k < hl)%nat -> rewritten false isV4 cs k = false -> bat s k = bat (iph ++ l4h) k).
+Proof.
+  intros Hmin Hihl L8 Hlen s cs hl.
+  unfold s, ref_udp_seg. cbv zeta. rewrite L8.
+  set (ulen := N.of_nat (8 + length chunk)).
+  set (X := wr16 l4h 4 ulen).
+  assert (LX : length X = 8%nat) by (unfold X; wlen).
+  set (z := wr16 X 6 0).
+  assert (Lz : length z = 8%nat) by (unfold z; wlen).
+  set (h := ref_ip isV4 iph (length iph + 8 + length chunk) i (rd16 iph 4)).
+  set (c := csum16 (pseudo_hdr isV4 h IPPROTO_UDP ulen ++ z ++ chunk) 0).
+  set (c' := if c =? 0 then 65535 else c).
+  assert (Hc : c <= 65535) by (unfold c; apply csum16_le).
+  assert (Hc' : c' <= 65535 /\ c' <> 0) by (unfold c'; destruct (N.eqb_spec c 0); lia).
+  set (l4' := wr16 z 6 c').
+  assert (Ll4 : length l4' = 8%nat) by (unfold l4'; wlen).
+  pose proof (l3_of_ref isV4 iph (l4' ++ chunk) i Hmin Hihl) as L3.
+  rewrite app_length, Ll4 in L3.
+  replace (length iph + (8 + length chunk))%nat with (length iph + 8 + length chunk)%nat in L3 by lia.
+  specialize (L3 Hlen). cbv zeta in L3. fold h in L3. destruct L3 as (Lh & L3ok & _ & Hcopy).
+  assert (Ls : length (h ++ l4' ++ chunk) = (hl + length chunk)%nat).
+  { rewrite !app_length, Lh, Ll4. unfold hl, cs. lia. }
+  assert (Esk : skipn cs (h ++ l4' ++ chunk) = l4' ++ chunk).
+  { replace cs with (length h) by exact Lh. apply skipn_app_len. }
+  assert (Elen : N.of_nat (hl + length chunk - cs) = ulen) by (unfold ulen, hl; f_equal; lia).
+  split; [exact Ls|]. split; [|split; [exact L3ok|split; [|split; [|split; [|split]]]]].
+  - rewrite app_assoc. replace hl with (length (h ++ l4')) by (rewrite app_length, Lh, Ll4; reflexivity).
+    apply skipn_app_len.
+  - rewrite Ls, Esk, Elen. rewrite pseudo_hdr_app by lia.
+    unfold l4'. apply region_valid.
+    + apply (sum16_pseudo isV4 h IPPROTO_UDP ulen); unfold ulen; lia.
+    + rewrite Lz. reflexivity.
+    + reflexivity.
+    + lia.
+    + unfold z. apply rd16_wr16_same; lia.
+    + apply Hc'.
+    + unfold c'. destruct (N.eqb_spec c 0) as [E0|E0].
+      * right. split; [reflexivity|]. unfold c, csum16, osum, cpl16 in E0. cbn [N.add] in E0.
+        pose proof (fold16_le (sum16 (pseudo_hdr isV4 h IPPROTO_UDP ulen ++ z ++ chunk))). lia.
+      * left. reflexivity.
+  - rewrite Ls, Elen. replace cs with (length h) by exact Lh. rewrite rd16_app_r. rewrite rd16_app_l by lia.
+    unfold l4', z. rewrite !rd16_wr16_out by wlen. unfold X. apply rd16_wr16_same; [lia|unfold ulen; lia].
+  - replace cs with (length h) by exact Lh. rewrite rd16_app_r. rewrite rd16_app_l by lia.
+    unfold l4'. rewrite rd16_wr16_same by lia. apply Hc'.
+  - cbv zeta. rewrite Ls, Esk, Elen. rewrite pseudo_hdr_app by lia.
+    rewrite wr16_app_l by lia. unfold l4'. rewrite wr16_wr16_same by lia.
+    assert (Ez : wr16 z 6 0 = z) by (unfold z; apply wr16_wr16_same; lia).
+    rewrite Ez. fold c.
+    replace cs with (length h) by exact Lh. rewrite rd16_app_r. rewrite rd16_app_l by wlen.
+    rewrite rd16_wr16_same by lia. reflexivity.
+  - intros k Hk Hr. destruct (Nat.lt_ge_cases k cs) as [Hkc|Hkc].
+    + rewrite (bat_app_l iph l4h k) by exact Hkc. apply Hcopy; assumption.
+    + assert (E : exists d, k = (cs + d)%nat) by (exists (k - cs)%nat; lia). destruct E as [d ->].
+      unfold cs at 1 2. rewrite bat_app_r. rewrite <- Lh at 1. rewrite bat_app_r. rewrite bat_app_l by (unfold hl in Hk; lia).
+      unfold rewritten in Hr. apply orb_false_iff in Hr as [_ Hr].
+      unfold l4', z, X. rewrite !bat_wr16_out by wlen. reflexivity.
+Qed.
